@@ -14,7 +14,7 @@ AllOps == {"Add", "Mul", "Neg", "Pow", "Sum", "Take", "Dot", "Outer"}
 AllManips == {"Replace", "Lin", "Lin2", "Deriv", "Factor", "Int"}
 AllKinds == {"id", "arg", "const", "scale", "self", "sum2", "sq", "mix", "contract", "swap", "chain", "cross", "bad"}
 Renamings == {"id", "arg", "swap", "chain"}
-AllArgs == 1..12
+AllArgs == 1..14
 
 \* ---- quick, exhaustive
 QuickFamilies == <<
@@ -31,7 +31,9 @@ QuickFamilies == <<
   \* 5: integer arguments
   Fam({11, 4}, {8}, {}, {"Mul", "Add", "Pow"}, 1, 2, 3, {"Replace"}, {"id", "arg", "const", "scale", "self", "swap", "bad"}, {11, 12, 4, 5}, 1, 0, 1, {1, 2}),
   \* 6: linearize in one and in two arguments of the same shape (the two directions may coincide), then renamed
-  Fam({1, 2}, {}, {}, {"Mul", "Add"}, 1, 2, 2, {"Lin", "Lin2", "Replace"}, {"swap"}, {1, 2, 3}, 1, 1, 0, {1, 2})
+  Fam({1, 2}, {}, {}, {"Mul", "Add"}, 1, 2, 2, {"Lin", "Lin2", "Replace"}, {"swap"}, {1, 2, 3}, 1, 1, 0, {1, 2}),
+  \* 7: a rank-3 argument w (2,2,2): w, w * w, sum(w * w); factor followed by linearize (multi-index ravelling in Monomial)
+  Fam({13}, {}, {}, {"Mul", "Sum"}, 2, 2, 2, {"Factor", "Lin"}, {}, {13, 14}, 2, 2, 0, {1, 2})
 >>
 
 \* ---- compact vocabulary in which EVERY action of the machine is enabled (run with TLC's per-action coverage: vacuity guard)
